@@ -7,7 +7,7 @@ HERE = os.path.dirname(os.path.abspath(__file__))
 TECH = "bounded model checking of the compiled Rust code: Kani 0.68 / CBMC 6.11 (CaDiCaL) over #[kani::proof] harnesses with kani::any() inputs"
 TECH_MIR = TECH + "; plus path-exploring symbolic execution of the rustc MIR of the real functions with z3 (mirsym)"
 MIR_ONLY = "path-exploring symbolic execution of the rustc MIR of the real functions (cargo +nightly rustc -Zunpretty=mir) with z3 deciding branch feasibility and the per-path obligations (mirsym)"
-MIRSYM = ("C01", "C11", "C04", "C19", "C18", "C02", "C08", "C09", "C05", "C12", "C20", "C07", "C16", "C13")
+MIRSYM = ("C01", "C11", "C04", "C19", "C18", "C02", "C08", "C09", "C05", "C12", "C20", "C07", "C16", "C13", "C03")
 MIR_ONLY_PROPS = ("C07", "C08", "C09")
 
 CLAIMS = {
@@ -17,7 +17,7 @@ CLAIMS = {
  "C02": ("findutils' side of the traversal: process_dir evaluates every yielded entry exactly once and in order, an error step gives a non-zero status and the walk continues (<=2/3 scripted steps, all entry records); the WalkDir configuration requested equals the Config (depth range incl. the empty range, -L/-H, -depth, -xdev, -sorted) for every Config; do_find accumulates the status over <=3 starting points.",
          "walkdir 2.5 itself (which entries exist, link following, loop detection) is trusted: in Kani its iterator is scripted and its builder methods are recorders; in mirsym (c02_walk) process_dir + WalkEntry::from_walkdir + WalkError's conversions run over a port of walkdir 2.5's iterator (min/max depth, contents_first, follow_links, errors for dangling and looping links and unreadable directories - errors bypass min_depth as in walkdir) on an 11-entry tree for every (mindepth, maxdepth) in 0..4 x -depth x -P/-H/-L: exactly the in-range entries are evaluated, each once, in order, a dangling link as a link.",
          "4 C02"),
- "C03": ("-prune marks exactly directories as the follow mode sees them (all types, P/H/L, stat failures) and is always true; the walk loop requests skip_current_dir iff -prune fired on a directory and -depth is off, for every script of <=2 (thorough 3) steps; contents_first/sort_by are requested iff -depth/-sorted.",
+ "C03": ("-prune marks exactly directories as the follow mode sees them (all types, P/H/L, stat failures) and is always true; the walk loop requests skip_current_dir iff -prune fired on a directory and -depth is off, for every script of <=2 (thorough 3) steps; contents_first/sort_by are requested iff -depth/-sorted. mirsym (c02_walk): the real parser on '-name X -prune -o -print' with -depth absent / before / after, process_dir and PruneMatcher over a port of walkdir's iterator (skip_current_dir included), X selecting any subset of the directories (and a link to a directory) of an 11-entry tree: exactly the descendants of the pruned directories are left out in the default order, nothing is left out under -depth, visit order pre/post, status; plus the depth-range walk of C02.",
          "Pre/post-order and sibling order themselves are walkdir's (trusted). Path::parent is cut in the loop harness (disables only finished_dir bookkeeping).",
          "4 C03"),
  "C04": ("Each limiter (-n, -L, -s) as one step from an arbitrary valid state over full-width usize; the real -n,-L,-s chain (one and two steps); and the whole batching loop process_input against every sequence of limiter verdicts and child outcomes for <=3 input arguments: order-preserving, lossless, flush only on rejection, retry in a fresh invocation, too-large diagnosis, -x, empty input/-r.",
